@@ -1144,24 +1144,104 @@ func (w *world) globalsWritten() []globalFact {
 		}
 	}
 	written := map[string]map[string]bool{}
+	addrIsCallArg := map[*ast.UnaryExpr]bool{}
+	for _, f := range w.pkg.Syntax {
+		ast.Inspect(f, func(n ast.Node) bool {
+			if c, ok := n.(*ast.CallExpr); ok {
+				for _, a := range c.Args {
+					if u, isAddr := unparen(a).(*ast.UnaryExpr); isAddr && u.Op == token.AND {
+						addrIsCallArg[u] = true
+					}
+				}
+			}
+			return true
+		})
+	}
 	for name, fd := range w.decls {
 		if fd.Body == nil || initOnly[name] {
 			continue
 		}
-		mark := func(e ast.Expr) {
+		globalOf := func(e ast.Expr) *types.Var {
 			id := baseIdent(e)
 			if id == nil {
-				return
+				return nil
 			}
 			v, ok := w.info.Uses[id].(*types.Var)
 			if !ok || v.Parent() != w.pkg.Types.Scope() {
+				return nil
+			}
+			return v
+		}
+		markHow := func(e ast.Expr, how string) {
+			v := globalOf(e)
+			if v == nil {
 				return
 			}
 			if written[v.Name()] == nil {
 				written[v.Name()] = map[string]bool{}
 			}
-			written[v.Name()][name] = true
+			written[v.Name()][name+how] = true
 		}
+		mark := func(e ast.Expr) { markHow(e, "") }
+		// the call a node is an argument of (for the description), and whether that callee only reads
+		ast.Inspect(fd.Body, func(n ast.Node) bool {
+			c, ok := n.(*ast.CallExpr)
+			if !ok {
+				return true
+			}
+			// (a) &global (or &global.f, &global[i]) handed to a callee: a potential write, unless
+			// the callee is known to read only (sync/atomic Load*)
+			for _, a := range c.Args {
+				if u, isAddr := unparen(a).(*ast.UnaryExpr); isAddr && u.Op == token.AND && globalOf(u.X) != nil {
+					callee := calleeName(w, c)
+					if strings.HasPrefix(callee, "sync/atomic.Load") {
+						continue
+					}
+					markHow(u.X, " (address passed to "+callee+")")
+				}
+			}
+			// (b) a method called on a package-level variable (or a field / element of one):
+			//     of a sync or sync/atomic type: everything but Load / the mutex operations writes;
+			//     of a type of this package with a pointer receiver: when the method writes through it
+			if sel, isSel := c.Fun.(*ast.SelectorExpr); isSel && globalOf(sel.X) != nil {
+				if fn, isFn := w.info.Uses[sel.Sel].(*types.Func); isFn {
+					if sig, _ := fn.Type().(*types.Signature); sig != nil && sig.Recv() != nil {
+						pkgPath := ""
+						if fn.Pkg() != nil {
+							pkgPath = fn.Pkg().Path()
+						}
+						switch {
+						case pkgPath == "sync" || pkgPath == "sync/atomic":
+							switch fn.Name() {
+							case "Load", "Lock", "Unlock", "RLock", "RUnlock", "TryLock", "TryRLock", "RLocker", "Range":
+							default:
+								markHow(sel.X, " (method "+pkgPath+"."+fn.Name()+")")
+							}
+						case fn.Pkg() == w.pkg.Types:
+							if _, ptr := sig.Recv().Type().(*types.Pointer); ptr {
+								if cd := w.callee(c); cd != nil && w.writesThroughReceiver(cd, 0, map[string]bool{}) {
+									markHow(sel.X, " (method "+funcName(cd)+" writes through its receiver)")
+								}
+							}
+						}
+					}
+				}
+			}
+			return true
+		})
+		// (c) any other escape of &global: stored, returned, sent
+		ast.Inspect(fd.Body, func(n ast.Node) bool {
+			switch x := n.(type) {
+			case *ast.UnaryExpr:
+				if x.Op == token.AND && globalOf(x.X) != nil {
+					// skip the ones that are call arguments (already described)
+					if !addrIsCallArg[x] {
+						markHow(x.X, " (address taken)")
+					}
+				}
+			}
+			return true
+		})
 		ast.Inspect(fd.Body, func(n ast.Node) bool {
 			switch x := n.(type) {
 			case *ast.AssignStmt:
@@ -1188,4 +1268,77 @@ func (w *world) globalsWritten() []globalFact {
 	}
 	sort.Slice(out, func(i, j int) bool { return out[i].Name < out[j].Name })
 	return out
+}
+
+// calleeName: pkgpath.Name (or pkgpath.Recv.Name) of what a call names, "?" for a function value.
+func calleeName(w *world, c *ast.CallExpr) string {
+	var id *ast.Ident
+	switch f := c.Fun.(type) {
+	case *ast.Ident:
+		id = f
+	case *ast.SelectorExpr:
+		id = f.Sel
+	default:
+		return "?"
+	}
+	switch o := w.info.Uses[id].(type) {
+	case *types.Func:
+		p := ""
+		if o.Pkg() != nil {
+			p = o.Pkg().Path() + "."
+		}
+		return p + o.Name()
+	case *types.Builtin:
+		return o.Name()
+	}
+	return "?"
+}
+
+// writesThroughReceiver: does the method (or a method it calls on its receiver) assign through its
+// receiver?
+func (w *world) writesThroughReceiver(fd *ast.FuncDecl, depth int, seen map[string]bool) bool {
+	if fd == nil || fd.Body == nil || fd.Recv == nil || len(fd.Recv.List) != 1 || len(fd.Recv.List[0].Names) != 1 || depth > 4 || seen[funcName(fd)] {
+		return false
+	}
+	seen[funcName(fd)] = true
+	recv := w.info.Defs[fd.Recv.List[0].Names[0]]
+	onRecv := func(e ast.Expr) bool {
+		id := baseIdent(e)
+		return id != nil && recv != nil && w.info.Uses[id] == recv
+	}
+	found := false
+	ast.Inspect(fd.Body, func(n ast.Node) bool {
+		switch x := n.(type) {
+		case *ast.AssignStmt:
+			if x.Tok != token.DEFINE {
+				for _, l := range x.Lhs {
+					if _, plain := l.(*ast.Ident); !plain && onRecv(l) {
+						found = true
+					}
+				}
+			}
+		case *ast.IncDecStmt:
+			if _, plain := x.X.(*ast.Ident); !plain && onRecv(x.X) {
+				found = true
+			}
+		case *ast.CallExpr:
+			if id, ok := x.Fun.(*ast.Ident); ok && (id.Name == "delete" || id.Name == "clear") && len(x.Args) > 0 && onRecv(x.Args[0]) {
+				found = true
+			}
+			if sel, ok := x.Fun.(*ast.SelectorExpr); ok && onRecv(sel.X) {
+				if cd := w.callee(x); cd != nil && w.writesThroughReceiver(cd, depth+1, seen) {
+					found = true
+				}
+				if fn, ok := w.info.Uses[sel.Sel].(*types.Func); ok && fn.Pkg() != nil && (fn.Pkg().Path() == "sync" || fn.Pkg().Path() == "sync/atomic") {
+					switch fn.Name() {
+					case "Load", "Lock", "Unlock", "RLock", "RUnlock", "TryLock", "TryRLock", "RLocker", "Range":
+					default:
+						found = true
+					}
+				}
+			}
+		}
+		return !found
+	})
+	return found
 }
